@@ -12,7 +12,7 @@ NAN = '__nan__'          # float('nan') inside a case (cases are stored as stric
 REQUIRED_THEOREMS = ['Usid.C16.reflexive', 'Usid.C16.none_ignored', 'Usid.C16.absent_key_mismatch', 'Usid.C16.sequence_scalar_mismatch',
                      'Usid.C16.scalar_sensitive', 'Usid.C16.length_sensitive', 'Usid.C16.array_sensitive_partial',
                      'Usid.C16.array_sensitive_counterexample']
-RULE = ('[also: whole-number sequences stored as 32-bit arrays and queried as python lists] [also: entry names with a leading or trailing blank] [also: NaN values, boolean lists, one value against a list of values and back, same-length / truncated / case-changed strings, values handed over as tuples / numpy arrays / numpy scalars, verbose=True, the File object itself] random dictionaries over int / float / bool / str / None / lists of ints, floats or strings, written with '
+RULE = ('[also: entries named like book-keeping attributes (timestamp, platform, machine_id, pyUSID_version)] [also: whole-number sequences stored as 32-bit arrays and queried as python lists] [also: entry names with a leading or trailing blank] [also: NaN values, boolean lists, one value against a list of values and back, same-length / truncated / case-changed strings, values handed over as tuples / numpy arrays / numpy scalars, verbose=True, the File object itself] random dictionaries over int / float / bool / str / None / lists of ints, floats or strings, written with '
         'write_simple_attrs to a group or a dataset, queried with the same dictionary and with every single-entry '
         'perturbation (value +-1, value x(1 +- tol*{0.1,10}), string change, length +-1, type swap, removal from the '
         'stored object, None); non-trivial = at least one list entry or a perturbation that must flip the answer')
@@ -134,6 +134,11 @@ def generate(seed, tier):
         if rk.random() < 0.25:
             victim = rk.choice(sorted(d))
             d = {((k + ' ' if rk.random() < 0.5 else ' ' + k) if k == victim else k): v for k, v in d.items()}
+        elif rk.random() < 0.3:
+            # a parameter that happens to be named like one of the library's own book-keeping attributes
+            victim = rk.choice(sorted(d))
+            newname = rk.choice(['timestamp', 'platform', 'machine_id', 'pyUSID_version'])
+            d = {(newname if k == victim else k): v for k, v in d.items()}
         ps = perturbations(rng, d)
         rng.shuffle(ps)
         cases.append({'stored': d, 'queries': [{'kind': k, 'q': q, 'drop': dr, 'key': key} for k, q, dr, key in ps[:8]],
